@@ -701,7 +701,7 @@ class RotateLeftConstant(Logic):
         a = self.a.get()
         n = self.n
         w = self.a.getWidth()
-        self.r.put((a << n) | (a >> (w - n)))
+        self.r.put(((a << n) | (a >> (w - n))) & ((1 << w) - 1))
 
 
 class RotateRightConstant(Logic):
@@ -731,7 +731,7 @@ class RotateRightConstant(Logic):
         a = self.a.get()
         n = self.n
         w = self.a.getWidth()
-        self.r.put((a >> n) | (a << (w - n)))
+        self.r.put(((a >> n) | (a << (w - n))) & ((1 << w) - 1))
                 
 class Xor2(Logic):
     def __init__(self, parent, name: str, a: Wire, b: Wire, r: Wire):
